@@ -486,8 +486,9 @@ def keep_unknown(rep, split=False):
         for d in F.decls.values():
             if d.kind == 'service':
                 for me in d.methods:
-                    for a in me.args:
-                        k_, dd, rt, ff = F.resolve(a.ty)
+                    # the generator marks the direct parameter types and the direct return type of a method as "argument" types
+                    for ty_ in [a.ty for a in me.args] + ([me.ret] if me.ret else []):
+                        k_, dd, rt, ff = F.resolve(ty_)
                         if k_ in ('struct', 'exception') and dd is not None:
                             direct.add((fname, norm(dd.name)))
     extra = []
